@@ -9,4 +9,7 @@ RULE_TREE = ("random operation histories (weighted words over fit / refine / rec
 
 PROPS: dict = {
     "C01": {"suites": [props_tree.c01], "rule": RULE_TREE},
+    "C02": {"suites": [props_tree.c02], "rule": RULE_TREE},
+    "C03": {"suites": [props_tree.c03], "rule": RULE_TREE},
+    "C09": {"suites": [props_tree.c09], "rule": RULE_TREE},
 }
